@@ -13,9 +13,6 @@ def showNatsSep (xs : List Nat) (sep : String) : String :=
 def JState.letter : JState → String
   | .new => "n" | .running => "R" | .done => "D" | .aborted => "A"
 
-def pendingOf (ids : List (Nat × IdSt)) : List Nat :=
-  (ids.filter (fun p => p.2 == .pending)).map (·.1)
-
 /-- Ascending order (Go prints the map keys sorted). -/
 def sortNats (xs : List Nat) : List Nat := xs.foldl (fun acc x => insertSorted x acc) []
 
